@@ -110,6 +110,7 @@ type op struct {
 type outcome struct {
 	text  string // result or listing or error
 	trace string
+	inj   []string // injected faults that fired (method names)
 }
 
 func (o outcome) String() string { return o.text + "\n" + o.trace }
@@ -156,6 +157,11 @@ func runOp(m *xpath.Machine, tree *faulttree.Tree, o op, tag string, yield bool)
 			out.text = fmt.Sprintf("PANIC %v", p)
 		}
 		out.trace = r.Trace()
+		for _, c := range r.Calls {
+			if c.Inj {
+				out.inj = append(out.inj, c.Method)
+			}
+		}
 	}()
 	if m == nil {
 		return outcome{text: "NO-MACHINE"}
@@ -291,6 +297,7 @@ func (w world) RunCase(t *tape.Tape, st *super.Stats) *super.Violation {
 		}
 	}
 	g.NoFuncs = false
+	g.FuncBias = true
 	W := 2 + t.Draw(4)
 	progs := make([][]op, W)
 	for c := 0; c < W; c++ {
@@ -303,7 +310,7 @@ func (w world) RunCase(t *tape.Tape, st *super.Stats) *super.Violation {
 				o = op{kind: 0, gram: t.Pick(5, 2, 1, 2, 1), mapMode: t.Pick(3, 3, 1)}
 				switch t.Pick(6, 2, 1) {
 				case 0:
-					o.expr = g.Expr(t.Draw(4))
+					o.expr = g.Expr(1 + t.Draw(4))
 				case 1:
 					o.expr = g.Damage(g.Expr(t.Draw(3)))
 				case 2:
@@ -323,7 +330,7 @@ func (w world) RunCase(t *tape.Tape, st *super.Stats) *super.Violation {
 			progs[c] = append(progs[c], o)
 		}
 	}
-	strategy := t.Draw(4)
+	strategy := t.Draw(5)
 	param := 1 + t.Draw(8)
 	level := []uint32{0, 2, 6, 16}[t.Draw(4)]
 	prio := make([]int, W)
@@ -331,8 +338,21 @@ func (w world) RunCase(t *tape.Tape, st *super.Stats) *super.Violation {
 		prio[i] = t.Draw(1000)
 	}
 	quantum := 0
+	var s *sched.Sched
 	pick := func(runnable []int, last int) int {
 		switch strategy {
+		case 4: // adversarial: leave a client that holds a lock parked and let the others run into it
+			if s.HoldsLock(last) {
+				var others []int
+				for _, r := range runnable {
+					if r != last {
+						others = append(others, r)
+					}
+				}
+				if len(others) > 0 {
+					return others[t.Draw(len(others))]
+				}
+			}
 		case 1: // sticky: keep the same client unless a switch is drawn
 			for _, r := range runnable {
 				if r == last && t.Draw(param+1) != 0 {
@@ -395,7 +415,7 @@ func (w world) RunCase(t *tape.Tape, st *super.Stats) *super.Violation {
 
 	// ---- concurrent phase
 	results := make([][]outcome, W)
-	s := sched.New(pick)
+	s = sched.New(pick)
 	s.Level = level
 	for c := 0; c < W; c++ {
 		c := c
@@ -538,6 +558,12 @@ func (w world) RunCase(t *tape.Tape, st *super.Stats) *super.Violation {
 			}
 			inc("operations_checked_against_isolation")
 			got := results[c][i]
+			for _, m := range got.inj {
+				inc("fault:" + m)
+			}
+			if o.kind == 0 && strings.Contains(got.text, "SIMFAULT-mapFn") {
+				inc("fault:mapFn-error")
+			}
 			if got.String() != want.String() {
 				what := "result"
 				if got.text == want.text {
@@ -577,8 +603,9 @@ func main() {
 	simrt.LockHook = sched.Always
 	simrt.BlockedHook = sched.Blocked
 	simrt.UnlockHook = sched.Unlocked
+	simrt.AcquiredHook = sched.Acquired
 	super.Main(world{}, super.Config{
-		QuickCases:       100,
+		QuickCases:       60,
 		ThoroughSeconds:  900,
 		CasesPerProcess:  1,
 		CaseTimeout:      60e9,
